@@ -968,6 +968,12 @@ func isIntersectOp(op string) bool {
 //
 // stmts has n elements, ops has n-1 elements where ops[i] is the operator between stmts[i] and stmts[i+1]
 func buildIntersectExceptTree(stmts []ast.Statement, ops []string) ast.Statement {
+	// An operator whose right-hand operand failed to parse (already reported as an error)
+	// has no statement after it; drop it so that ops[i] always sits between stmts[i] and stmts[i+1].
+	if len(ops) > len(stmts)-1 {
+		ops = ops[:len(stmts)-1]
+	}
+
 	if len(stmts) == 1 {
 		return stmts[0]
 	}
